@@ -232,7 +232,8 @@ fn run_inner(case: &PsCase, facts: &mut PsFacts) -> Result<(), Outcome> {
                 if !pubs.is_empty() {
                     let pi = pick_idx(*p, pubs.len());
                     if !pubs[pi].st.ended() {
-                        for _ in 0..(1 + (*k as usize) % 3) {
+                        // k < 3: 1-3 messages; larger k: a long burst made ready at once
+                        for _ in 0..(if *k < 3 { 1 + *k as usize } else { *k as usize }) {
                             let n = pubs[pi].pushed.len();
                             let f = make_frame(case.payload_seed, pi, n);
                             pubs[pi].pushed.push(f.clone());
@@ -499,6 +500,7 @@ pub fn op_strategy(g: PsGen) -> BoxedStrategy<PsOp> {
         (8, Just(PsOp::RegPub).boxed()),
         (10, (0u8..4).prop_map(|cap| PsOp::RegSub { cap }).boxed()),
         (24, (sel(), 0u8..3).prop_map(|(p, k)| PsOp::Send { p, k }).boxed()),
+        (1, (sel(), 20u8..150).prop_map(|(p, k)| PsOp::Send { p, k }).boxed()),
         (2, sel().prop_map(|p| PsOp::PushErr { p }).boxed()),
         (5, sel().prop_map(|p| PsOp::EndPub { p }).boxed()),
         (10, sel().prop_map(|s| PsOp::Block { s }).boxed()),
